@@ -238,6 +238,7 @@ static const struct { const char *name, *bytes; int twowin; } ops[] = {
 	{"z<CR>", "z\n", 0}, {"z.", "z.", 0}, {"z-", "z-", 0}, {"H", "H", 0}, {"L", "L", 0}, {"P", "P", 0}, {"^R", "\x12", 0}, {"20|", "20|", 0},
 	{"ia<CR>b<ESC>", "ia\nb" ESC, 0}, {":1", ":1\n", 0}, {"yy", "yy", 0}, {"5j", "5j", 0}, {"w", "w", 0},
 	{"^Ws", "\x17s", 1}, {"^Wj", "\x17j", 1}, {"^Wo", "\x17o", 1}, {"3yy", "3yy", 0}, {"5k", "5k", 0},
+	{"gUj", "gUj", 0}, {"g~3j", "g~3j", 0}, {"gUw", "gUw", 0}, {">j", ">j", 0}, {"3J", "3J", 0},
 	{"3p", "3p", 0}, {"2P", "2P", 0}, {":%s/i/I/", ":%s/i/I/\n", 0}, {":g/2/d", ":g/2/d\n", 0},
 };
 #define NOPS ((int) (sizeof(ops) / sizeof(ops[0])))
